@@ -32,6 +32,7 @@ type Effect struct {
 	Args   []*Term
 	Vals   []AV
 	Block  int
+	NAsg   int // number of assumptions (Path.Order) made before the effect
 }
 
 type Path struct {
@@ -95,6 +96,35 @@ type WalkCfg struct {
 	NoEffects bool
 	// NoInline: keep every call opaque (the error-flow engine reasons per call site)
 	NoInline bool
+	// Bind: values known before the walk starts (the parameters of a helper bound to its call site's arguments)
+	Bind map[ssa.Value]AV
+}
+
+// bindArgs: the parameters of the helper called at `call`, bound to the argument values of that call as seen from the
+// caller (constants, function literals with what they capture, and the caller's own terms).
+func bindArgs(call *ssa.Call) map[ssa.Value]AV {
+	if call == nil || call.Common().StaticCallee() == nil {
+		return nil
+	}
+	h := call.Common().StaticCallee()
+	tb := NewTB()
+	out := map[ssa.Value]AV{}
+	for i, p := range h.Params {
+		if i >= len(call.Common().Args) {
+			break
+		}
+		a := call.Common().Args[i]
+		av := AV{T: tb.Of(a)}
+		if k, ok := a.(*ssa.Const); ok {
+			if k.Value != nil {
+				av.C = k.Value
+			} else if isNillable(k.Type()) {
+				av.Nil = true
+			}
+		}
+		out[p] = av
+	}
+	return out
 }
 
 type wstate struct {
@@ -182,6 +212,9 @@ func WalkFrom(fn *ssa.Function, start, prev *ssa.BasicBlock, cfg WalkCfg) ([]*Pa
 	s := &wstate{env: map[ssa.Value]AV{}, mem: map[*ssa.Alloc]AV{}, heap: map[string]AV{}, asg: Asg{}, visits: map[int]int{}, rng: map[string][2]int64{}}
 	for k, v := range cfg.Pre {
 		s.asg[k] = v
+	}
+	for k, v := range cfg.Bind {
+		s.env[k] = v
 	}
 	w.block(s, start, prev, 0)
 	if w.over {
@@ -383,7 +416,7 @@ func (w *walker) blockFrom(s *wstate, b, prev *ssa.BasicBlock, depth int, from i
 			if idx < from {
 				continue
 			}
-			if call, isCall := in.(*ssa.Call); isCall && w.shouldInline(call) {
+			if call, isCall := in.(*ssa.Call); isCall && w.shouldInline(s, call) {
 				w.inlineCall(s, b, prev, depth, idx, call)
 				return
 			}
@@ -403,7 +436,7 @@ func (w *walker) blockFrom(s *wstate, b, prev *ssa.BasicBlock, depth int, from i
 				w.emit(s, "return", in, ret, nil)
 				return
 			case *ssa.Panic:
-				s.effects = append(s.effects, Effect{Kind: "panic", Instr: in, Args: []*Term{w.val(s, in.X).T}, Block: b.Index})
+				s.effects = append(s.effects, Effect{NAsg: len(s.order), Kind: "panic", Instr: in, Args: []*Term{w.val(s, in.X).T}, Block: b.Index})
 				w.emit(s, "panic", in, nil, nil)
 				return
 			default:
@@ -422,29 +455,84 @@ func (w *walker) blockFrom(s *wstate, b, prev *ssa.BasicBlock, depth int, from i
 // shouldInline: a static call of a module function that the rule tables do not know (a helper extracted by
 // a refactoring, say) is analysed by inlining, so that the rules see through it; known functions stay
 // opaque anchors. Bounded: no recursion, nesting depth 3.
-func (w *walker) shouldInline(call *ssa.Call) bool {
-	cal := call.Common().StaticCallee()
-	if w.cfg.NoInline || cal == nil || len(cal.Blocks) == 0 || len(w.stack) >= 3 || cal == w.fn {
-		return false
+func (w *walker) shouldInline(s *wstate, call *ssa.Call) bool {
+	cal, _ := w.inlineTarget(s, call)
+	return cal != nil
+}
+
+// inlineTarget: the function to inline for a call, and the closure term when the callee is a function literal that
+// reached the call as a value (through a helper's parameter, a captured variable or a read-only dispatch table).
+func (w *walker) inlineTarget(s *wstate, call *ssa.Call) (*ssa.Function, *Term) {
+	cc := call.Common()
+	if w.cfg.NoInline || cc.IsInvoke() || len(w.stack) >= 3 {
+		return nil, nil
 	}
-	if cal.Pkg == nil && cal.Origin() == nil {
-		return false
+	var cal *ssa.Function
+	var clo *Term
+	if sc := cc.StaticCallee(); sc != nil {
+		if sc.Parent() != nil {
+			return nil, nil // closures called directly: left opaque
+		}
+		if sc.Pkg == nil && sc.Origin() == nil {
+			return nil, nil
+		}
+		if knownFuncs[knownKey(sc)] {
+			return nil, nil
+		}
+		cal = sc
+	} else {
+		switch cc.Value.(type) {
+		case *ssa.Parameter, *ssa.FreeVar, *ssa.Extract, *ssa.Lookup:
+		default:
+			return nil, nil
+		}
+		t := w.val(s, cc.Value).T
+		if t == nil {
+			return nil, nil
+		}
+		t = w.tableEntry(s, t)
+		switch t.Op {
+		case "closure":
+			mc, ok := t.V.(*ssa.MakeClosure)
+			if !ok {
+				return nil, nil
+			}
+			cal, clo = mc.Fn.(*ssa.Function), t
+		case "fn":
+			f, ok := t.V.(*ssa.Function)
+			if !ok || (!isUnknownHelper(f) && f.Parent() == nil) {
+				return nil, nil // a named function the rules know: stays an (opaque) call of it
+			}
+			cal = f
+		default:
+			return nil, nil
+		}
 	}
-	if !strings.HasPrefix(funcPkgPath(cal), modPath) {
-		return false
-	}
-	if cal.Parent() != nil {
-		return false // closures called directly: left opaque
+	if cal == nil || len(cal.Blocks) == 0 || cal == w.fn || !strings.HasPrefix(funcPkgPath(cal), modPath) {
+		return nil, nil
 	}
 	for _, f := range w.stack {
 		if f == cal {
-			return false
+			return nil, nil
 		}
 	}
 	if calleesInclude(cal, cal, 0) {
-		return false // directly or mutually recursive helper
+		return nil, nil // directly or mutually recursive helper
 	}
-	return !knownFuncs[knownKey(cal)]
+	return cal, clo
+}
+
+// tableEntry: a function value read from a read-only dispatch table under a key the path determines is the
+// entry's function.
+func (w *walker) tableEntry(s *wstate, t *Term) *Term {
+	lt := t
+	if t.Op == "ext" && t.Name == "0" && len(t.Args) == 1 {
+		lt = t.Args[0]
+	}
+	if e, present, decided := roLookup(lt, s.asg); decided && present && e != nil {
+		return w.tb.Of(e)
+	}
+	return t
 }
 
 func knownKey(f *ssa.Function) string {
@@ -480,7 +568,7 @@ func calleesInclude(f, target *ssa.Function, d int) bool {
 // inlineCall walks the callee with its parameters bound to the caller's argument values and, for every
 // path of the callee, continues the caller after the call.
 func (w *walker) inlineCall(s *wstate, b, prev *ssa.BasicBlock, depth, idx int, call *ssa.Call) {
-	cal := call.Common().StaticCallee()
+	cal, clo := w.inlineTarget(s, call)
 	sw := &walker{fn: cal, cfg: w.cfg, tb: NewTB(), local: map[*ssa.Alloc]bool{}, keyTerm: w.keyTerm, stack: append(append([]*ssa.Function(nil), w.stack...), w.fn)}
 	sw.cfg.StopAt = nil
 	sw.cfg.MaxPaths = w.cfg.MaxPaths
@@ -497,6 +585,17 @@ func (w *walker) inlineCall(s *wstate, b, prev *ssa.BasicBlock, depth, idx int, 
 	for i, p := range cal.Params {
 		if i < len(call.Common().Args) {
 			cs.env[p] = w.val(s, call.Common().Args[i])
+		}
+	}
+	if clo != nil {
+		mc := clo.V.(*ssa.MakeClosure)
+		for i, fv := range cal.FreeVars {
+			switch {
+			case i < len(clo.Args):
+				cs.env[fv] = AV{T: clo.Args[i]}
+			case clo.env != nil && i < len(mc.Bindings):
+				cs.env[fv] = AV{T: clo.env.Of(mc.Bindings[i])}
+			}
 		}
 	}
 	sw.block(cs, cal.Blocks[0], nil, 0)
@@ -798,7 +897,7 @@ func (w *walker) instr(s *wstate, b *ssa.BasicBlock, in ssa.Instruction) {
 		at := tv(in.Addr)
 		s.heap[at.String()] = val
 		if !w.cfg.NoEffects {
-			s.effects = append(s.effects, Effect{Kind: "store", Instr: in, Args: []*Term{at, val.T}, Vals: []AV{{T: at}, val}, Block: b.Index})
+			s.effects = append(s.effects, Effect{NAsg: len(s.order), Kind: "store", Instr: in, Args: []*Term{at, val.T}, Vals: []AV{{T: at}, val}, Block: b.Index})
 		}
 	case *ssa.UnOp:
 		if in.Op == token.MUL {
@@ -814,6 +913,13 @@ func (w *walker) instr(s *wstate, b *ssa.BasicBlock, in ssa.Instruction) {
 			if v, ok := s.heap[at.String()]; ok {
 				s.env[in] = v
 				return
+			}
+			if a, ok := at.V.(*ssa.Alloc); ok && at.Op == "alloc" {
+				// a cell of an enclosing function, read through a captured variable of an inlined closure
+				if v, ok := s.mem[a]; ok {
+					s.env[in] = v
+					return
+				}
 			}
 			var t *Term
 			switch at.Op {
@@ -856,6 +962,15 @@ func (w *walker) instr(s *wstate, b *ssa.BasicBlock, in ssa.Instruction) {
 		s.env[in] = w.refine(s, AV{T: t})
 	case *ssa.Call:
 		name := calleeName(in.Common())
+		if name == "dyn" {
+			if ft := w.val(s, in.Common().Value).T; ft != nil {
+				if ft = w.tableEntry(s, ft); ft.Op == "fn" {
+					if f, ok := ft.V.(*ssa.Function); ok && f.Parent() == nil {
+						name = funcName(f) // a named function behind a function value
+					}
+				}
+			}
+		}
 		t := &Term{Op: "call", Name: name, V: in, Typ: in.Type()}
 		var vals []AV
 		if in.Common().IsInvoke() || name == "dyn" {
@@ -880,7 +995,7 @@ func (w *walker) instr(s *wstate, b *ssa.BasicBlock, in ssa.Instruction) {
 			}
 		}
 		if !w.cfg.NoEffects {
-			s.effects = append(s.effects, Effect{Kind: "call", Instr: in, Callee: name, Args: t.Args, Vals: vals, Block: b.Index})
+			s.effects = append(s.effects, Effect{NAsg: len(s.order), Kind: "call", Instr: in, Callee: name, Args: t.Args, Vals: vals, Block: b.Index})
 		}
 	case *ssa.Go, *ssa.Defer:
 		kind := "go"
@@ -891,7 +1006,7 @@ func (w *walker) instr(s *wstate, b *ssa.BasicBlock, in ssa.Instruction) {
 			kind = "defer"
 			cc = in.(*ssa.Defer).Common()
 		}
-		e := Effect{Kind: kind, Instr: in, Callee: calleeName(cc), Block: b.Index}
+		e := Effect{NAsg: len(s.order), Kind: kind, Instr: in, Callee: calleeName(cc), Block: b.Index}
 		if cc.IsInvoke() || e.Callee == "dyn" {
 			e.Args = append(e.Args, tv(cc.Value))
 		}
@@ -906,9 +1021,9 @@ func (w *walker) instr(s *wstate, b *ssa.BasicBlock, in ssa.Instruction) {
 	case *ssa.DebugRef:
 	case *ssa.MapUpdate:
 		m, k, v := w.val(s, in.Map), w.val(s, in.Key), w.val(s, in.Value)
-		s.effects = append(s.effects, Effect{Kind: "mapupdate", Instr: in, Args: []*Term{m.T, k.T, v.T}, Vals: []AV{m, k, v}, Block: b.Index})
+		s.effects = append(s.effects, Effect{NAsg: len(s.order), Kind: "mapupdate", Instr: in, Args: []*Term{m.T, k.T, v.T}, Vals: []AV{m, k, v}, Block: b.Index})
 	case *ssa.Send:
-		s.effects = append(s.effects, Effect{Kind: "send", Instr: in, Args: []*Term{tv(in.Chan), tv(in.X)}, Block: b.Index})
+		s.effects = append(s.effects, Effect{NAsg: len(s.order), Kind: "send", Instr: in, Args: []*Term{tv(in.Chan), tv(in.X)}, Block: b.Index})
 	case *ssa.Extract:
 		if comps, ok := s.tuples[in.Tuple]; ok && in.Index < len(comps) {
 			s.env[in] = comps[in.Index]
